@@ -136,8 +136,9 @@ def install(repo_root):
   assert 'malt' not in sys.modules, 'dsim.boot.install must run before malt is imported'
   threading.Lock = _Lock
   threading.RLock = _RLock
-  for name in ('Condition', 'Event', 'Semaphore', 'BoundedSemaphore', 'Barrier', 'Timer'):
+  for name in ('Condition', 'Semaphore', 'BoundedSemaphore', 'Barrier', 'Timer'):
     setattr(threading, name, _wrap_class(name, getattr(threading, name)))
+  threading.Event = _make_sim_event(threading.Event)
   # Thread creation from repo code
   _orig_thread_init = threading.Thread.__init__
 
@@ -148,6 +149,54 @@ def install(repo_root):
     return _orig_thread_init(self, *a, **k)
   threading.Thread.__init__ = _thread_init
   threading._dsim_installed = True
+
+
+SIM_EVENTS_CREATED = [0]
+
+
+def _make_sim_event(cls):
+  """threading.Event whose instances created by repository code are owned by
+  the simulator: a simulated thread waiting on one is *blocked* (other threads
+  run), set() wakes the waiters.  The flag itself stays in the real object.
+  A timed wait times out only when nothing else in the simulation can run."""
+  orig_init = cls.__init__
+
+  class Event(cls):
+    _dsim = False
+
+    def __init__(self, *a, **k):
+      orig_init(self, *a, **k)
+      f = sys._getframe(1)
+      if _in_repo(f.f_code.co_filename):
+        self._dsim = True
+        self.site = (_rel(f.f_code.co_filename), f.f_lineno)
+        self.owner = None          # (lets the deadlock report treat it like a lock)
+        self.sim_waiters = []
+        SIM_EVENTS_CREATED[0] += 1
+        self.index = 'e%d' % SIM_EVENTS_CREATED[0]
+
+    def __repr__(self):
+      if self._dsim:
+        return '<SimEvent %s %s:%s>' % (self.index, self.site[0], self.site[1])
+      return cls.__repr__(self)
+
+    def wait(self, timeout=None):
+      sim = CURRENT_SIM
+      if self._dsim and sim is not None:
+        me = sim.current_thread()
+        if me is not None:
+          return sim.event_wait(self, me, timeout)
+      return cls.wait(self, timeout)
+
+    def set(self):
+      cls.set(self)
+      sim = CURRENT_SIM
+      if self._dsim and sim is not None:
+        sim.event_set(self, sim.current_thread())
+
+  Event.__module__ = cls.__module__
+  Event.__qualname__ = Event.__name__ = 'Event'
+  return Event
 
 
 def _wrap_class(name, cls):
